@@ -126,3 +126,76 @@ pub fn encode(items: &[Item]) -> String {
     }
     parts.join(",")
 }
+
+/// Byte ranges of the top-level block comments of a source.
+pub fn block_ranges(source: &str) -> Vec<(usize, usize)> {
+    let raw = raw_stream(source);
+    let mut out = Vec::new();
+    let mut depth = 0usize;
+    let mut start = 0usize;
+    for (k, class) in raw.classes.iter().enumerate() {
+        let (s, e) = raw.spans[k];
+        match class {
+            | Raw::Open => {
+                if depth == 0 {
+                    start = s;
+                }
+                depth += 1;
+            }
+            | Raw::Close if depth > 0 => {
+                depth -= 1;
+                if depth == 0 {
+                    out.push((start, e));
+                }
+            }
+            | _ => {}
+        }
+    }
+    out
+}
+
+/// The source with the horizontal white space in front of the continuation lines of every block
+/// comment removed (the printer re-indents those lines with the code around them).
+pub fn strip_block_indent(source: &str) -> String {
+    let ranges = block_ranges(source);
+    let mut out = String::with_capacity(source.len());
+    let mut pos = 0usize;
+    for (s, e) in ranges {
+        out.push_str(&source[pos..s]);
+        let mut at_line_start = false;
+        for ch in source[s..e].chars() {
+            if at_line_start && (ch == ' ' || ch == '\t') {
+                continue;
+            }
+            at_line_start = ch == '\n';
+            out.push(ch);
+        }
+        pos = e;
+    }
+    out.push_str(&source[pos..]);
+    out
+}
+
+/// Line comments of `input` that `output` carries directly behind a non-blank character although
+/// the input had white space in front of them; and `output` with a blank put back in front of each.
+pub fn glued_line_comments(input: &str, output: &str) -> (Vec<String>, String) {
+    let mut glued = Vec::new();
+    let mut repaired = output.to_string();
+    for it in items(input) {
+        if let Item::Comment('L', text) = it {
+            let mut from = 0usize;
+            while let Some(off) = repaired[from..].find(&text) {
+                let at = from + off;
+                let before = repaired[..at].chars().next_back();
+                if before.is_some_and(|c| !c.is_whitespace()) {
+                    glued.push(text.clone());
+                    repaired.insert(at, ' ');
+                    from = at + 1 + text.len();
+                } else {
+                    from = at + text.len();
+                }
+            }
+        }
+    }
+    (glued, repaired)
+}
